@@ -150,3 +150,15 @@ V('C15', 'release-with-local-flag', 'edb/server/connpool/pool.py',
         )
         if not handed_over:
             if discard:''', None)
+# round 5: a `range` loop bounded by a fresh read of the free room is a
+# capacity guard (negative control; the stale variant is seed C15-b1)
+V('C15', 'nc-rebalance-range-loop-fresh-room', F, P + 'Pool._maybe_rebalance',
+  '''                while (
+                    block.count_conns() < quota and
+                    self._cur_capacity < self._max_capacity
+                ):
+                    self._schedule_new_conn(block)
+''', '''                room = self._max_capacity - self._cur_capacity
+                for _ in range(min(quota - nconns, room)):
+                    self._schedule_new_conn(block)
+''', None)
